@@ -14,16 +14,18 @@ func init() {
 	register(&PropSpec{
 		ID:    "C10",
 		Title: "Every sorted key/value store is a byte-ordered map with atomic batches",
-		Explanation: "Decided (structural necessary conditions, enumerated over every non-test type implementing sorted.KeyValue): " +
-			"V-size — in every declared Set, in every batch type's Set and in every CommitBatch that applies recorded mutations, each hand-over of the value (call argument, or store outside the function) is dominated by the err==nil edge of sorted.CheckSizes applied to that very key and value; the oversize edge never returns the CheckSizes error and, inside a batch loop, continues with the next mutation; promoted Set/CommitBatch/BeginBatch come from a checked implementer or from the interface. " +
-			"V-txn — kvfile: every path from a successful BeginTransaction to an exit passes Commit or Rollback (deferred, flag-guarded rollbacks are evaluated with the flag's value on that path), all writes are on the success edge of BeginTransaction, no failure edge of a write reaches Commit, and txmu is held from BeginTransaction to Commit/Rollback; sqlkv.CommitBatch: exactly one of tx.Commit/tx.Rollback on every path past the type assertion, Commit only where the sticky error is nil, the Rollback path returns the sticky error, and the *sql.Tx co-stored with the BeginTx error is used only where it cannot be nil. " +
-			"V-buffer-locks — buffer.KeyValue: every access to buf/back holds mu (write mode in Flush, read mode elsewhere; Find and the final back.Close are reasoned exceptions), buffered is touched only under bufMu, no method calls a sibling that takes a lock it already holds, Flush commits to back successfully before it deletes from buf and deletes exactly the keys it copied, Delete and the delete branch of CommitBatch reach both stores, Get consults back only after buf said ErrNotFound. " +
-			"V-iter — iterators: buffer's merge iterator advances a sub-iterator only where that sub-iterator's eof flag is known false, its Close closes both sub-iterators on every path, every iterator Close in pkg/sorted returns the accumulated error of the underlying cursor, every Find result obtained inside pkg/sorted is closed or handed over on every path, and client-side end bounds (kvfile, mongo) are exclusive and apply only to a non-empty end. " +
-			"NOT decided: map semantics of the underlying engines (leveldb, modernc kv, SQL), byte ordering, the correctness of the merge order in buffer's iterator, SQL text, durability across reopen, behaviour of concurrent direct writes during a kvfile transaction, any concrete history.",
+		Explanation: "Decided (structural necessary conditions, enumerated over every non-test type implementing sorted.KeyValue / sorted.Iterator): " +
+			"V-size — in every declared Set, in every batch type's Set and in every CommitBatch that applies recorded mutations, each hand-over of the value (call argument other than log/fmt, or store outside the function) is dominated by the err==nil edge of sorted.CheckSizes applied to that very key and value (identity of the value followed through conversions, locals, varargs, map/struct literals; for batches through sorted.Mutation.Key/Value on the same mutation or the struct fields the batch's Set recorded into); a batch Set without a guard may only record into the batch object; the oversize edge never returns the CheckSizes error and, inside a batch loop, comes back to the loop header (continue, not return/break); promoted Set/BeginBatch/CommitBatch come from an enumerated implementer or from an embedded interface value; sorted.mutation.Key/Value return the fields (*batch).Set recorded into. " +
+			"V-txn — kvfile: the BeginTransaction error is tested; every path from the successful begin to an exit passes Commit or Rollback on that DB (a deferred literal counts when, under the value the captured bool flag has on that path, all its paths roll back); every kv.DB write and the Commit are on the success edge of the begin; no failure edge of a write reaches Commit; one mutex is held in write mode at begin, writes, Commit and Rollback. sqlkv.CommitBatch: every path that has a batch with a transaction calls exactly one of tx.Commit/tx.Rollback; Commit only where the batch's sticky error field was tested nil; Rollback only where it was tested non-nil, and the sticky error is what is returned afterwards; the *sql.Tx that beginTx stores next to the error of the same BeginTx call is used, anywhere in package sqlkv, only where that error field was tested nil or the pointer tested non-nil (facts come from the dominating test of a load of the field; an assignment to the field between test and use is not modelled). " +
+			"V-buffer-locks — buffer.KeyValue (buf/back identified by the parameter positions of buffer.New): every call on buf/back holds kv.mu — write mode in Flush, read mode elsewhere, with two reasoned exceptions (Find's iterators, the terminal back.Close); kv.buffered is read/written only under kv.bufMu; no method calls a sibling method that locks a mutex the caller holds; Flush commits the delete batch to buf only on the success edge of committing the copy to back, each batch to the store it was begun on, and every key it deletes from buf was put, with the value of the same buf iterator, into back's batch; Delete reaches both stores on every path and a batched delete goes into both batches within the iteration; Get calls back.Get only where buf.Get's error was compared equal to sorted.ErrNotFound. " +
+			"V-iter — buffer.(*iter).Next advances a sub-iterator only on paths where that sub-iterator's eof flag is known false (abstract interpretation over the two flags and the results of subIter.next, whose summary 'false iff it set eof' is itself checked); buffer.(*iter).Close closes both sub-iterators on every path; Close of every sorted.Iterator implementer under pkg/sorted never returns a constant nil; every iterator obtained from Find inside pkg/sorted is closed on every path or stored/returned; for every declared Find, the end parameter is used as a bound only on the end != \"\" edge, or is passed unchanged to another Find, or is stored in an iterator field whose Next compares bytes.Compare(key, end) only under len(end) > 0 and stops exactly for results >= 0 (the branch is evaluated for -1, 0, +1). " +
+			"V-notfound — every declared Get of an implementer has a return yielding sorted.ErrNotFound or returns the error of another Get; where Delete compares the error of a backend delete call with a package-level sentinel (memdb.ErrNotFound, mgo.ErrNotFound), every call of that backend function in CommitBatch compares with the same sentinel (existence of the comparison, not its polarity). " +
+			"NOT decided: that any store behaves as a sorted map for a concrete history; byte ordering and the merge order of buffer's iterator (only its eof discipline); the semantics of the engines (leveldb, modernc kv, SQL text and collation, mongo queries); start-bound handling; durability across close/reopen; lock-free consistency of iterators returned by buffer.Find; direct kvfile Set/Delete racing with a transaction; whether CheckSizes' limits are the right ones.",
 		RuleDocs: map[string]string{
 			"V-size":         "forward value-flow from key/value (parameters, sorted.Mutation accessors, recorded struct fields) to every call/escaping store; each must be success-dominated by CheckSizes on the same key/value; oversize edge returns nil / continues the batch loop",
 			"V-txn":          "path exploration from (*kv.DB).BeginTransaction to exits with constant propagation of the rollback flag; dominance rules on kvfile writes and on sqlkv.CommitBatch's Commit/Rollback; nil-tx use rule",
 			"V-buffer-locks": "must-hold locksets at every buf/back invoke and every access of buffered in pkg/sorted/buffer; self-deadlock rule; Flush order and move agreement; both-store deletes; Get shadowing",
+			"V-notfound":     "every declared Get yields sorted.ErrNotFound on some return or delegates to a Get that does; a backend not-found sentinel that Delete compares the backend's delete error with is compared the same way on the batch path",
 			"V-iter":         "abstract interpretation of buffer.(*iter).Next over the two eof flags; all-paths close of both sub-iterators; Close error propagation of every sorted.Iterator implementer in pkg/sorted; Find/Close pairing inside pkg/sorted; exclusive end-bound comparison in client-side filters",
 		},
 		Run:       runC10,
@@ -41,6 +43,7 @@ func runC10(p *Program, r *Reporter) {
 	c10RuleTxn(p, r)
 	c10RuleBuffer(p, r)
 	c10RuleIter(p, r)
+	c10RuleNotFound(p, r)
 }
 
 // ===========================================================================
@@ -1174,27 +1177,46 @@ func c10CheckSQLCommit(p *Program, r *Reporter) {
 	for _, c := range ends {
 		isEnd[c.Instr] = true
 	}
-	// s1: exactly one of Commit/Rollback on every path that has a batch
+	// s1: exactly one of Commit/Rollback on every path that has a batch with a transaction
 	type st struct {
-		b *ssa.BasicBlock
-		n int
+		b    *ssa.BasicBlock
+		n    int
+		noTx bool
+	}
+	isTxLoad := func(v ssa.Value) bool {
+		_, _, ok := c10FieldLoad(v)
+		return ok && IsNamed(v.Type(), "database/sql", "Tx")
 	}
 	seen := map[st]bool{}
 	var bad []string
-	var walk func(b *ssa.BasicBlock, n int)
-	walk = func(b *ssa.BasicBlock, n int) {
-		if seen[st{b, n}] {
+	var walk func(b *ssa.BasicBlock, n int, noTx bool)
+	walk = func(b *ssa.BasicBlock, n int, noTx bool) {
+		if seen[st{b, n, noTx}] {
 			return
 		}
-		seen[st{b, n}] = true
+		seen[st{b, n, noTx}] = true
 		for _, in := range b.Instrs {
 			if isEnd[in] {
 				n++
 			}
+			if ifi, ok := in.(*ssa.If); ok {
+				// `if bt.tx != nil`: on the nil edge there is no transaction to end
+				if bo, ok := ifi.Cond.(*ssa.BinOp); ok && (bo.Op == token.EQL || bo.Op == token.NEQ) &&
+					(IsNilConst(bo.Y) && isTxLoad(bo.X) || IsNilConst(bo.X) && isTxLoad(bo.Y)) {
+					nilSucc := 0
+					if bo.Op == token.NEQ {
+						nilSucc = 1
+					}
+					for i, s := range b.Succs {
+						walk(s, n, noTx || i == nilSucc)
+					}
+					return
+				}
+			}
 			if ret, ok := in.(*ssa.Return); ok {
 				switch {
 				case n == 1:
-				case n == 0 && c10OnAssertFailEdge(b):
+				case n == 0 && (noTx || c10OnAssertFailEdge(b)):
 				case n == 0:
 					bad = append(bad, fmt.Sprintf("neither Commit nor Rollback before the return at line %d: the transaction (and its connection) stays open", p.Fset.Position(ret.Pos()).Line))
 				default:
@@ -1204,10 +1226,10 @@ func c10CheckSQLCommit(p *Program, r *Reporter) {
 			}
 		}
 		for _, s := range b.Succs {
-			walk(s, n)
+			walk(s, n, noTx)
 		}
 	}
-	walk(fn.Blocks[0], 0)
+	walk(fn.Blocks[0], 0, false)
 	r.Check(len(bad) == 0 && len(ends) >= 2, "V-txn", key+"#commit-xor-rollback", p.Pos(fn.Pos()),
 		"every path that holds a *batchTx ends the sql transaction exactly once (Commit or Rollback)", strings.Join(dedupe(bad), "; ")+c10If(len(ends) < 2, " CommitBatch no longer contains both a Commit and a Rollback", ""))
 	for _, c := range ends {
@@ -2368,8 +2390,9 @@ func c10EndUses(p *Program, fn *ssa.Function, end ssa.Value, depth int, notes, b
 					continue
 				}
 				fa, ok := st.Addr.(*ssa.FieldAddr)
-				if !ok || NamedOf(fa.X.Type()) == nil {
-					*und = append(*und, where+": end is stored somewhere that is not a field of an iterator")
+				if !ok || NamedOf(fa.X.Type()) == nil || !c10IsIterator(p, NamedOf(fa.X.Type())) {
+					*bad = append(*bad, fmt.Sprintf("%s: end is converted without an end != \"\" test and stored at line %d into something that is not one of this repository's iterators: an empty end would become an empty, not an absent, upper bound (no key is < \"\")", where, p.Fset.Position(st.Pos()).Line))
+					stored = true
 					continue
 				}
 				stored = true
@@ -2379,7 +2402,7 @@ func c10EndUses(p *Program, fn *ssa.Function, end ssa.Value, depth int, notes, b
 				*bad = append(*bad, where+": end is converted and dropped")
 			}
 		case *ssa.Store:
-			if fa, ok := x.Addr.(*ssa.FieldAddr); ok && x.Val == end && NamedOf(fa.X.Type()) != nil {
+			if fa, ok := x.Addr.(*ssa.FieldAddr); ok && x.Val == end && NamedOf(fa.X.Type()) != nil && c10IsIterator(p, NamedOf(fa.X.Type())) {
 				c10ClientBound(p, NamedOf(fa.X.Type()), fa.Field, notes, bad, und)
 			} else if al, ok := x.Addr.(*ssa.Alloc); ok && x.Val == end {
 				// parameter spilled (captured by a literal): follow the loads in this function
@@ -2421,6 +2444,11 @@ func c10EndUses(p *Program, fn *ssa.Function, end ssa.Value, depth int, notes, b
 			*und = append(*und, fmt.Sprintf("%s: unrecognised use of end at line %d", where, p.Fset.Position(u.Pos()).Line))
 		}
 	}
+}
+
+func c10IsIterator(p *Program, n *types.Named) bool {
+	it := p.Iface("pkg/sorted", "Iterator")
+	return types.Implements(n, it) || types.Implements(types.NewPointer(n), it)
 }
 
 // c10ClientBound checks the reader of an end bound stored in field fld of
@@ -2573,4 +2601,167 @@ func c10ConstBool(v ssa.Value, depth int) (val, ok bool) {
 		}
 	}
 	return false, false
+}
+
+// ===========================================================================
+// V-notfound: absent keys look the same in every implementation
+
+// c10SentinelCmp lists the package-level error variables that error value ev
+// is compared with (==, != or errors.Is) inside its function.
+func c10SentinelCmp(ev ssa.Value) []*ssa.Global {
+	var out []*ssa.Global
+	glob := func(v ssa.Value) *ssa.Global {
+		if u, ok := v.(*ssa.UnOp); ok && u.Op == token.MUL {
+			if g, ok := u.X.(*ssa.Global); ok {
+				return g
+			}
+		}
+		return nil
+	}
+	seen := map[ssa.Value]bool{}
+	var visit func(v ssa.Value)
+	visit = func(v ssa.Value) {
+		if v == nil || seen[v] || v.Referrers() == nil {
+			return
+		}
+		seen[v] = true
+		for _, u := range *v.Referrers() {
+			switch x := u.(type) {
+			case *ssa.BinOp:
+				if x.Op == token.EQL || x.Op == token.NEQ {
+					if g := glob(x.X); g != nil {
+						out = append(out, g)
+					}
+					if g := glob(x.Y); g != nil {
+						out = append(out, g)
+					}
+				}
+			case *ssa.Call:
+				if (CallSite{x.Parent(), x}).IsStatic("errors", "", "Is") && len(x.Call.Args) == 2 {
+					if g := glob(x.Call.Args[1]); g != nil {
+						out = append(out, g)
+					}
+				}
+			case *ssa.Phi:
+				visit(x)
+			}
+		}
+	}
+	visit(ev)
+	return out
+}
+
+func c10RuleNotFound(p *Program, r *Reporter) {
+	kvIface := p.Iface("pkg/sorted", "KeyValue")
+	nGet := 0
+	for _, t := range p.Implementers(kvIface, false) {
+		// N1: Get reports an absent key as sorted.ErrNotFound (or delegates to a Get that does)
+		if get, declared := c10Method(p, t, "Get"); get != nil && declared && len(Returns(get)) > 0 {
+			nGet++
+			ok, how := c10YieldsNotFound(get, 0)
+			r.Check(ok, "V-notfound", FuncKey(get)+"#ErrNotFound", p.Pos(get.Pos()), how,
+				"no return of Get yields sorted.ErrNotFound and Get does not delegate to another Get: callers (index, blob stores, buffer.Get) compare the error with sorted.ErrNotFound, an absent key would surface as a backend-specific error")
+		}
+		// N2: a backend 'not found' tolerated by Delete is tolerated by the delete branch of CommitBatch too
+		del, d1 := c10Method(p, t, "Delete")
+		cb, d2 := c10Method(p, t, "CommitBatch")
+		if del == nil || cb == nil || !d1 || !d2 {
+			continue
+		}
+		for _, c := range CallsIn(del, false) {
+			f := c.Callee()
+			if f == nil || InModule(f) || c.Value() == nil {
+				continue
+			}
+			ev, hasErr, _ := ErrValue(c.Value())
+			if !hasErr || ev == nil {
+				continue
+			}
+			for _, g := range c10SentinelCmp(ev) {
+				// the same backend call in CommitBatch
+				for _, c2 := range CallsIn(cb, false) {
+					if c2.Callee() != f || c2.Value() == nil {
+						continue
+					}
+					ev2, _, _ := ErrValue(c2.Value())
+					same := false
+					if ev2 != nil {
+						for _, g2 := range c10SentinelCmp(ev2) {
+							if g2 == g {
+								same = true
+							}
+						}
+					}
+					r.Check(same, "V-notfound", FuncKey(cb)+"#"+FuncKeyAny(f)+"#"+g.Name(), p.Pos(c2.Pos()),
+						"the batch path tolerates "+g.Pkg.Pkg.Name()+"."+g.Name()+" from "+f.Name()+" exactly like Delete does",
+						"Delete treats "+g.Pkg.Pkg.Name()+"."+g.Name()+" from "+f.Name()+" as success but the batch path does not compare with it: a batch deleting an absent key fails (and stops half-way) in this implementation only")
+				}
+			}
+		}
+	}
+	r.Analysed("get_implementations", nGet)
+	r.Floor("V-notfound", 7)
+}
+
+// c10YieldsNotFound: some return of fn yields sorted.ErrNotFound, or fn returns
+// the error of another Get/get (interface Get, or a module function that does).
+func c10YieldsNotFound(fn *ssa.Function, depth int) (bool, string) {
+	idx := ErrResultIndex(fn)
+	if idx < 0 || depth > 2 {
+		return false, ""
+	}
+	var check func(v ssa.Value, d int) (bool, string)
+	check = func(v ssa.Value, d int) (bool, string) {
+		if v == nil || d > 6 {
+			return false, ""
+		}
+		if c10IsErrNotFound(v) {
+			return true, "a return yields sorted.ErrNotFound"
+		}
+		switch x := v.(type) {
+		case *ssa.Phi:
+			for _, e := range x.Edges {
+				if e == ssa.Value(x) {
+					continue
+				}
+				if ok, how := check(e, d+1); ok {
+					return ok, how
+				}
+			}
+		case *ssa.Extract:
+			return check(x.Tuple, d+1)
+		case *ssa.Call:
+			cc := x.Call
+			if cc.IsInvoke() && cc.Method.Name() == "Get" {
+				return true, "delegates to Get of another store/transaction"
+			}
+			if f := cc.StaticCallee(); f != nil && InModule(f) {
+				if ok, _ := c10YieldsNotFound(f, depth+1); ok {
+					return true, "delegates to " + FuncKey(f) + ", which yields sorted.ErrNotFound"
+				}
+			}
+		case *ssa.UnOp:
+			if x.Op == token.MUL {
+				// named result / local: any store of ErrNotFound into it
+				if cell, ok := varOf(x.X); ok {
+					for _, st := range storesTo(cell) {
+						if ok, how := check(st.Val, d+1); ok {
+							return ok, how
+						}
+					}
+				}
+			}
+		}
+		return false, ""
+	}
+	for _, ri := range Returns(fn) {
+		if ok, how := check(ri.Results[idx], 0); ok {
+			return true, how
+		}
+		// raw (unresolved) operand too: named results assigned in several places
+		if ok, how := check(ri.Ret.Results[idx], 0); ok {
+			return true, how
+		}
+	}
+	return false, ""
 }
